@@ -467,7 +467,7 @@ func (in *instr) file(p *packages.Package, f *ast.File, name string) error {
 			if ls == nil {
 				break
 			}
-			w := isWrite(x)
+			w := isWrite(x) || in.opaqueShared(v)
 			k := skey{ls, vid, w}
 			if sSeen[k] {
 				break
@@ -567,6 +567,46 @@ func (in *instr) noteUnsupportedCall(c *ast.CallExpr, info *types.Info) {
 		in.out.Unsupported = append(in.out.Unsupported,
 			fmt.Sprintf("%s.%s at %s", obj.Pkg().Path(), obj.Name(), in.fset.Position(c.Pos())))
 	}
+}
+
+// opaqueShared: a package-level variable whose type is a pointer or interface type
+// declared in a third-party module (not the standard library, not the module under test).
+// The simulator cannot see inside such a value; unless its documentation promises
+// otherwise it carries state (a text transformer, an encoder, a parser), so every use
+// by a task counts as a write for the race rule.
+func (in *instr) opaqueShared(v *types.Var) bool {
+	t := v.Type()
+	if pt, ok := t.(*types.Pointer); ok {
+		t = pt.Elem()
+	} else if _, isIface := t.Underlying().(*types.Interface); !isIface {
+		return false
+	}
+	nt, ok := t.(*types.Named)
+	if !ok || nt.Obj().Pkg() == nil {
+		return false
+	}
+	path := nt.Obj().Pkg().Path()
+	first := path
+	if i := strings.IndexByte(path, '/'); i >= 0 {
+		first = path[:i]
+	}
+	if !strings.Contains(first, ".") {
+		return false // standard library
+	}
+	if path == in.modPath || strings.HasPrefix(path, in.modPath+"/") {
+		return false
+	}
+	// only values that look like streaming state: a Reset, Transform, Write, Read or Next
+	// method (a text transformer, an encoder, a tokenizer). Immutable descriptors such as
+	// x/text's charmap.Windows1252 (NewDecoder / NewEncoder only) are shared safely.
+	ms := types.NewMethodSet(v.Type())
+	for i := 0; i < ms.Len(); i++ {
+		switch ms.At(i).Obj().Name() {
+		case "Reset", "Transform", "Write", "Read", "Next":
+			return true
+		}
+	}
+	return false
 }
 
 // syncKind classifies a call to a method of sync.Mutex, sync.RWMutex, sync.Locker
